@@ -5,6 +5,21 @@ from props import *
 LEAN_MODULES = ['C02b']
 
 
+def dynamic_overlap2(ctx, rows):
+    """the C02b table decision failed: if the overlap2 run of this check observed an overlap below one of the
+    operators whose rows the model now marks may-overlap, that run is the failing input"""
+    may = getattr(ctx, 'overlap2_may', [])
+    if not may:
+        return False
+    names = ', '.join(sorted({n for n, _ in rows}))
+    c, g, l = may[0]
+    ctx.violation(f'C02: regenerated fact rows violate the predicate ({names}) and the callbacks of one observer overlap (max inside = {R.parse_res(g).get("maxinside")}) '
+                  f'with every input driven from its own goroutine ({len(may)} set-ups)',
+                  '# proof obligation over the regenerated table RoGen.Catalogue no longer holds (RoProps/C02b): ' + '; '.join(f'{n}: {why}' for n, why in rows) +
+                  f'\n# concrete run: raw observer with an inside counter, every input of the operator pumped from a goroutine of its own\n{c}\n# implementation: {g}\n# model: {l}\n')
+    return True
+
+
 def parts(ctx):
     rows = R.run_kind(ctx, 'overlap', shards=4)
     confirmed = 0
@@ -24,6 +39,23 @@ def parts(ctx):
             ctx.traces_validated += 1
             if ld.get('expect') == 'may-overlap' and gd.get('observed') == 'overlap':
                 confirmed += 1
+    # every multi-feeder operator with all its inputs driven from goroutines of their own (kind=overlap2): the
+    # model's expectation comes from the regenerated rows; an overlap where the rows say may-overlap is the
+    # concrete input for a failed table decision (recorded for the search below)
+    ctx.overlap2_may = []
+    for c, g, l in R.run_kind(ctx, 'overlap2', shards=6):
+        ctx.evaluations += 1
+        gd, ld = R.parse_res(g), R.parse_res(l)
+        ctx.distinct.add(c.split(' ', 2)[2])
+        if flag(gd) or flag(ld):
+            ctx.violation('C02 overlap2 run could not be evaluated', f'{c}\n# implementation: {g}\n# model: {l}\n', no_input=True)
+        elif ld.get('expect') == 'serialized' and gd.get('observed') != 'serialized':
+            ctx.violation(f"C02: callbacks of one observer overlap (max inside = {gd.get('maxinside')}) below an operator the model proves serialized",
+                          f'# every input of the operator is driven from a goroutine of its own; raw observer with an inside counter\n{c}\n# implementation: {g}\n# model: {l}\n')
+        else:
+            ctx.traces_validated += 1
+            if ld.get('expect') == 'may-overlap' and gd.get('observed') == 'overlap':
+                ctx.overlap2_may.append((c, g, l))
     # (c) subjects under several producer goroutines, observed directly and through the unsafe pass-throughs
     uni = 0
     for c, g, l in R.run_kind(ctx, 'subjoverlap', shards=4):
@@ -49,5 +81,5 @@ def parts(ctx):
                              f"directly downstream of a multi-source operator the observer's callbacks overlap (Lean: unsafe_passthrough_witness)")
     ctx.notes.append(f'overlap observed on the implementation in {confirmed} chains the model marks may-overlap (dynamic confirmation of the known finding)')
     return dict(rule_part='Merge of 3 goroutine-driven sources |> each operator / random chains of 2-3 operators into a raw observer with an inside counter; '
-                          'model verdict from emitMode over the regenerated rows',
-                search=table_search('C02'))
+                          'model verdict from emitMode over the regenerated rows; kind=overlap2: 23 multi-feeder set-ups (notifier / boundary / second source / inner observables / multi-source fallbacks / timers) x {second input completes, fails} with every input pumped from its own goroutine',
+                search=table_search('C02', dynamic_overlap2))
